@@ -175,7 +175,8 @@ class C16(ThreadsProperty):
             "order and real-time order across producers (FIFO linearizability, prefix); every accepted value delivered when nothing stops the run; no "
             "forced time-out of the engine's wait while an accepted value is queued or a stop has returned (lost wake-up); accepted-minus-dequeued "
             "never above capacity; every refusal justified by a possibly full queue or a stop; nothing accepted after stop; no deadlock. non-trivial = "
-            ">= 30 scheduler steps; distinct = distinct interleavings (hash of the scheduler decision list)")
+            ">= 30 scheduler steps; distinct = distinct interleavings (hash of the scheduler decision list)"
+            " The instrumented pass of the thorough tier runs site sweeps: a profile run lists every call site entered while another thread was runnable, then one run per site with that site as the only extra pre-emption point.")
     assumptions = ["baton passing serialises threads at synchronisation points: sequentially consistent interleavings only",
                    "the conflating policy is checked for subset / per-producer order / refusals only (merged state of TS<Int> is the last value)"]
 
